@@ -58,6 +58,10 @@ def fields(nrows, ncols, seed, few=False):
     inv = _flow.invalid_code(seed)
     f = [("default", None, None, 0),
          ("cell+1", [float(c + 1) for c in range(ntot)], -999.0, 0)]
+    # values that need more than 24 significant bits (a single-precision intermediate would show)
+    f.append(("tenths", [0.1 * (c + 1) for c in range(ntot)], -999.0, 0))
+    if not few:
+        f.append(("big-int", [float(2 ** 24 + 1 + 2 * c) for c in range(ntot)], -999.0, 0))
     if few and ntot > 64:
         # long strips: a count can reach a typical 8-bit no-data marker
         f.append(("default:fdnodata=255", None, None, 255))
@@ -140,14 +144,14 @@ def check_grid(ctx, nrows, ncols, codes, seed, few=False, strip=None):
                 continue
             ctx.traces += 1
             exp = Fraction(own[c]) + sum(Fraction(own[u]) for u in closure)
-            if abs(o - float(exp)) > 1e-9:
+            if abs(o - float(exp)) > 1e-9 * max(1.0, abs(float(exp))):
                 ctx.violation("accumulate:value:%s" % ("uniform" if fname.split(":")[0] in ("default", "uniform0.25") else "nonuniform"), case,
                               "cell %d: accumulated %r, sum over itself and %d upstream cells = %r" % (c, o, len(closure), float(exp)),
                               observed=out.tolist(), expected=float(exp))
                 continue
             # local recursion: own + accumulated(direct upstream), using the implementation's own values
             loc = own[c] + sum(float(out[u]) for u in m.up[c])
-            if abs(o - loc) > 1e-9:
+            if abs(o - loc) > 1e-9 * max(1.0, abs(loc)):
                 ctx.violation("accumulate:recursion", case, "cell %d: %r != own %r + accumulated direct upstream %s" % (
                     c, o, own[c], [float(out[u]) for u in m.up[c]]))
         if fname == "default" and not cyclic:
